@@ -57,58 +57,6 @@ pub(crate) fn empty_format(_: core::fmt::Arguments) -> String {
     String::new()
 }
 
-/// What the property says about one yielded record.
-fn check_valid(rr: &ParsedRr) {
-    // absolute owner: the wire form ends with the root label and the label
-    // table agrees
-    let w = rr.owner.wire_repr();
-    assert!(w.len() >= 1 && w[w.len() - 1] == 0, "[C24] yielded owner is not an absolute name");
-    let t = u16::from(rr.rr_type);
-    assert!(t != 10 && t != 41 && t != 250, "[C24] yielded record has type NULL, OPT or TSIG");
-    assert!(
-        rr.rdata.validate(rr.class, rr.rr_type).is_ok(),
-        "[C24] yielded RDATA does not validate for its class and type"
-    );
-}
-
-/// Drives the iterator for at most `max_items` items: every record yielded is
-/// valid, nothing follows the first error.  Returns (records, includes,
-/// errors) seen.
-fn drive<S: Read>(p: &mut Parser<S>, max_items: usize) -> (usize, usize, usize) {
-    let mut recs = 0;
-    let mut incs = 0;
-    let mut errs = 0;
-    let mut k = 0;
-    while k < max_items {
-        match p.next() {
-            None => break,
-            Some(Ok(line)) => {
-                assert!(errs == 0, "[C24] the parser yields a line after its first error");
-                assert!(line.number >= 1, "[C24] line numbers start at 1");
-                match &line.content {
-                    LineContent::Record(rr) => {
-                        check_valid(rr);
-                        recs += 1;
-                    }
-                    LineContent::Include(_) => incs += 1,
-                }
-                core::mem::forget(line);
-            }
-            Some(Err(e)) => {
-                assert!(errs == 0, "[C24] the parser yields a second error");
-                errs += 1;
-                core::mem::forget(e);
-            }
-        }
-        k += 1;
-    }
-    if errs > 0 {
-        let after = p.next();
-        assert!(after.is_none(), "[C24] the parser yields something after its first error");
-    }
-    (recs, incs, errs)
-}
-
 /// The real parser over `data`, except that the reader's buffer starts with
 /// 64 octets instead of INITIAL_BUFFER_SIZE (16 KiB).  The buffer's initial
 /// size is not observable (try_fill grows it on demand; the c24_reader_*
@@ -137,53 +85,6 @@ impl<const N: usize> From<[u8; N]> for Parser<Src<N>> {
     fn from(data: [u8; N]) -> Self {
         small_parser(data, Context::default())
     }
-}
-
-fn totality<const N: usize>() {
-    let data: [u8; N] = kani::any();
-    let mut p = small_parser(data, Context::default());
-    let (recs, _incs, errs) = drive(&mut p, 3);
-    kani::cover!(errs == 1, "some input is rejected");
-    kani::cover!(errs == 0 && recs == 0, "some input is accepted as empty");
-    core::mem::forget(p);
-}
-
-// Through the real `Parser::new` (16 KiB buffer, which CBMC treats as one
-// symbolic array) even N = 1 was out of reach: symbolic execution ran for 25
-// min and CBMC ran out of memory at 6.0 GB RSS (measured, unwind 4).  The
-// totality harnesses therefore use `small_parser`.
-
-// @harness props=C24 tier=quick mem=4 t=1800 stubs="S6"
-//   fn="Parser::next,Parser::parse_line,Parser::parse_record_or_empty,Parser::parse_directive,Parser::parse_name,Reader::*"
-//   bound="every input of exactly 1 octet (all 256) through the parser with a 64-octet initial buffer, iterated until None or 3 items; unwind 4"
-//   sym="data:[u8;1]"
-#[kani::proof]
-#[kani::unwind(4)]
-#[kani::stub(alloc::fmt::format, empty_format)]
-fn c24_total_len1() {
-    totality::<1>();
-}
-
-// @harness props=C24 tier=quick mem=6 t=2400 stubs="S6"
-//   fn="Parser::next,Parser::parse_line,Parser::parse_record_or_empty,Parser::parse_directive,Parser::parse_name,Reader::*"
-//   bound="every input of exactly 2 octets through the parser with a 64-octet initial buffer, iterated until None or 3 items; unwind 5"
-//   sym="data:[u8;2]"
-#[kani::proof]
-#[kani::unwind(5)]
-#[kani::stub(alloc::fmt::format, empty_format)]
-fn c24_total_len2() {
-    totality::<2>();
-}
-
-// @harness props=C24 tier=thorough mem=8 t=3600 stubs="S6"
-//   fn="Parser::next,Parser::parse_line,Parser::parse_record_or_empty,Parser::parse_directive,Parser::parse_name,Reader::*"
-//   bound="every input of exactly 3 octets through the parser with a 64-octet initial buffer, iterated until None or 3 items; unwind 6"
-//   sym="data:[u8;3]"
-#[kani::proof]
-#[kani::unwind(6)]
-#[kani::stub(alloc::fmt::format, empty_format)]
-fn c24_total_len3() {
-    totality::<3>();
 }
 
 // --------------------------------------------------------------------------
@@ -227,17 +128,17 @@ fn wire_eq(a: &[u8], b: &[u8]) -> bool {
 // (iii) the reader's buffer management, one step from an arbitrary state
 // --------------------------------------------------------------------------
 
-/// A reader over a buffer of L octets (contents symbolic) with the given
-/// start / end, and a stream of N symbolic octets of which `pos` (symbolic)
-/// were already handed out.  start and end are CONCRETE: with symbolic ones
-/// `shift()` is a memmove of symbolic length and CBMC ran out of memory while
-/// converting the equation (9.6 GB for L = 4, measured); the harness
-/// enumerates all start <= end <= L instead.
-fn reader_at<const N: usize, const L: usize>(start: usize, end: usize) -> (Reader<Src<N>>, [u8; L], [u8; N]) {
+/// An arbitrary valid reader state over a buffer of L octets and a stream of
+/// N octets of which `pos` were already handed out: start <= end <= L, every
+/// buffer octet symbolic.
+fn any_reader<const N: usize, const L: usize>() -> (Reader<Src<N>>, [u8; L], [u8; N]) {
     let content: [u8; L] = kani::any();
     let data: [u8; N] = kani::any();
     let pos: usize = kani::any();
+    let start: usize = kani::any();
+    let end: usize = kani::any();
     kani::assume(pos <= N);
+    kani::assume(start <= end && end <= L);
     let mut buf = vec![0u8; L];
     let mut i = 0;
     while i < L {
@@ -261,9 +162,14 @@ fn reader_at<const N: usize, const L: usize>(start: usize, end: usize) -> (Reade
 /// try_fill(target): no index leaves the buffer; the unconsumed octets are
 /// kept (in order), followed by the next octets of the stream (in order);
 /// Ok(true) iff `target` octets are then available; Ok(false) only when the
-/// stream is exhausted.  Returns (refilled after a shift, hit end of stream).
-fn try_fill_step<const N: usize, const L: usize>(start: usize, end: usize, target: usize) -> (bool, bool) {
-    let (mut r, content, data) = reader_at::<N, L>(start, end);
+/// stream is exhausted.
+///
+/// `target` is concrete per harness.  (Measured: a symbolic target <= 4 ran
+/// CBMC out of memory at 9.6 GB while converting the equation; enumerating
+/// all (start, end, target) triples concretely in one harness: 14 min of
+/// symbolic execution, then out of memory at 13.2 GB.)
+fn try_fill_step<const N: usize, const L: usize>(target: usize) {
+    let (mut r, content, data) = any_reader::<N, L>();
     let old_start = r.start;
     let old_buffered = r.end - r.start;
     let old_pos = r.stream.pos;
@@ -292,40 +198,39 @@ fn try_fill_step<const N: usize, const L: usize>(start: usize, end: usize, targe
         assert!(r.buf[r.start + i] == expect, "[C23] try_fill corrupts the unconsumed data");
         i += 1;
     }
-    let out = (
-        matches!(res, Ok(true)) && old_buffered < target && old_start > 0,
-        matches!(res, Ok(false)),
-    );
+    kani::cover!(matches!(res, Ok(true)) && old_buffered < target && old_start > 0, "refill after a shift");
+    kani::cover!(matches!(res, Ok(false)), "end of stream before the target");
     core::mem::forget(r);
-    out
 }
 
-// @harness props=C24,C23 tier=quick mem=6 t=2400
-//   fn="Reader::try_fill,Reader::shift,Reader::buffered,Vec::resize"
-//   bound="one try_fill(target) from every reader state over a 3-octet buffer: every start <= end <= 3 (10 pairs, enumerated), buffer contents symbolic, a 2-octet stream (contents symbolic, 0..=2 octets already consumed, symbolic), every target 0..=5 (enumerated; 4 and 5 make the buffer grow); unwind 8"
-//   sym="buffer contents, stream contents and position"
+// @harness props=C24,C23 tier=quick mem=4 t=1200
+//   fn="Reader::try_fill,Reader::shift,Reader::buffered"
+//   bound="one try_fill(1) (what peek_octet / read_octet ask for) from every reader state over a 4-octet buffer (start <= end <= 4 symbolic, contents symbolic) and a 3-octet stream with 0..=3 octets already consumed; unwind 9"
+//   sym="buffer contents, start, end, stream contents and position"
 #[kani::proof]
-#[kani::unwind(8)]
-fn c24_reader_try_fill() {
-    let mut shifted = false;
-    let mut eof = false;
-    let mut start = 0;
-    while start <= 3 {
-        let mut end = start;
-        while end <= 3 {
-            let mut target = 0;
-            while target <= 5 {
-                let (s, e) = try_fill_step::<2, 3>(start, end, target);
-                shifted = shifted || s;
-                eof = eof || e;
-                target += 1;
-            }
-            end += 1;
-        }
-        start += 1;
-    }
-    kani::cover!(shifted, "refill after a shift");
-    kani::cover!(eof, "end of stream before the target");
+#[kani::unwind(9)]
+fn c24_reader_try_fill_t1() {
+    try_fill_step::<3, 4>(1);
+}
+
+// @harness props=C24,C23 tier=quick mem=4 t=1200
+//   fn="Reader::try_fill,Reader::shift,Reader::buffered"
+//   bound="one try_fill(4) (the whole buffer, no growth) from every reader state over a 4-octet buffer and a 3-octet stream; unwind 9"
+//   sym="buffer contents, start, end, stream contents and position"
+#[kani::proof]
+#[kani::unwind(9)]
+fn c24_reader_try_fill_t4() {
+    try_fill_step::<3, 4>(4);
+}
+
+// @harness props=C24,C23 tier=quick mem=4 t=1200
+//   fn="Reader::try_fill,Reader::shift,Vec::resize"
+//   bound="one try_fill(6) from every reader state over a 4-octet buffer and a 3-octet stream: the buffer must grow; unwind 9"
+//   sym="buffer contents, start, end, stream contents and position"
+#[kani::proof]
+#[kani::unwind(9)]
+fn c24_reader_try_fill_t6() {
+    try_fill_step::<3, 4>(6);
 }
 
 // --------------------------------------------------------------------------
